@@ -34,9 +34,11 @@ def isAddr (a : Int) : Bool := 0 ≤ a && a ≤ 0xFFFFFFFF
 def memIdOf (env : Env) : MemOpt → Option Int
   | .none => some 0
   | .at e => intOf env e
-  | .name n => match env.memNames.find? (fun p => p.1 == n) with
-    | some p => if p.2 != 0 then some p.2 else none
-    | none => none
+  | .name n =>
+    if n == "" then none   -- an identifier is never empty
+    else match env.memNames.find? (fun p => p.1 == n) with
+      | some p => if p.2 != 0 then some p.2 else none
+      | none => none
 
 def hexBytes : List Char → Option (List UInt8)
   | [] => some []
@@ -165,6 +167,11 @@ def cmdOf (env : Env) (kbs : List KeyBlobDef) : Stmt → Option Cmd
     let (st, en, key, ctr) ← keyblobOf kbs i
     some (.loadCrypto "encrypt" a st en key ctr (hexOfBytes bs))
   | _ => none
+
+/-- any load of a binary blob -/
+def isBlobLoad : Stmt → Bool
+  | .load _ (.blob _) _ => true
+  | _ => false
 
 /-- plain (non-program) load of a binary blob: the implementation packs it as ONE little-endian 32-bit word
     (known finding C19-blob-load) -/
